@@ -165,10 +165,10 @@ func generatedHostile() []seedFile {
 		1: "<< /Type /Catalog /Pages 2 0 R /A 6 0 R /B 7 0 R /C 8 0 R /D 9 0 R >>",
 		2: "<< /Type /Pages /Count 1 /Kids [ 3 0 R ] >>",
 		3: pageObj, 4: contentObj, 5: fontObj,
-		6: nest("[", "]", 255),
-		7: nest("[", "]", 256),
-		8: nest("[", "]", 257),
-		9: nest("<</A", ">>", 300),
+		6:  nest("[", "]", 255),
+		7:  nest("[", "]", 256),
+		8:  nest("[", "]", 257),
+		9:  nest("<</A", ">>", 300),
 		13: streamObj(fmt.Sprintf("/Type /ObjStm /N 3 /First %d /Filter /FlateDecode", first), deflate([]byte(body))),
 	}, ""))
 	// the same object stream, reachable through a cross-reference stream
